@@ -526,6 +526,11 @@ class Interp:
             if e.attr in ("__getitem__", "__contains__") and isinstance(base, (dict, list, set)):
                 return BoundOp(e.attr, base)
             if isinstance(base, Obj):
+                if self.strict_attrs and e.attr not in base.fields and isinstance(e.ctx, ast.Load):
+                    cands_ = [ci for ci in self.prog.classes.values() if (ci.fullname == base.full if base.full else ci.name == base.cls)]
+                    if len(cands_) == 1 and self.prog.lookup_method(cands_[0], e.attr) is None \
+                            and not any(e.attr in k.class_attrs for k in self.prog.mro(cands_[0])):
+                        self.throw(f"AttributeError: '{base.cls}' object has no attribute '{e.attr}'", e)
                 return base.fields.get(e.attr, UNKNOWN)
             if isinstance(base, TypeV):
                 v = type_attr(base, e.attr)
@@ -1283,6 +1288,7 @@ def _install():
     Interp.prelude_same_object = True
     Interp.strict_index = False
     Interp.strict_keys = False
+    Interp.strict_attrs = False
     Interp.fork_sites = []
     Interp.instantiate_classes = False
     Interp.while_cap = 3
